@@ -338,4 +338,333 @@ theorem inv_init (c : Cfg) (n : Nat) (h0 : Nat → Nat) : Inv c n (init h0) := b
   intro t
   constructor <;> simp [TState.queued, TState.pend, pairs, ringWords, encode, encState]
 
+
+theorem inv_rlock {c : Cfg} {n : Nat} {s s' : State} {out : Out} (i : Nat) (h : Inv c n s)
+    (st : step c n s (.rlock i) = some (s', out)) : Inv c n s' := by
+  obtain ⟨h1, h2, h3, h4, h5, h6, h7, h8, h9, h10, h11, h12, h13⟩ := h
+  simp only [step] at st
+  split at st
+  · simp at st
+  · split at st
+    · simp only [Option.some.injEq, Prod.mk.injEq] at st
+      obtain ⟨rfl, -⟩ := st
+      constructor <;> simp only [tick, upd] <;> grind
+    · simp at st
+
+theorem inv_runlock {c : Cfg} {n : Nat} {s s' : State} {out : Out} (i : Nat) (h : Inv c n s)
+    (st : step c n s (.runlock i) = some (s', out)) : Inv c n s' := by
+  obtain ⟨h1, h2, h3, h4, h5, h6, h7, h8, h9, h10, h11, h12, h13⟩ := h
+  simp only [step] at st
+  split at st
+  · simp only [Option.some.injEq, Prod.mk.injEq] at st
+    obtain ⟨rfl, -⟩ := st
+    constructor <;> simp only [tick, upd] <;> grind
+  · simp at st
+
+theorem inv_gp {c : Cfg} {n : Nat} {s s' : State} {out : Out} (h : Inv c n s)
+    (st : step c n s .gp = some (s', out)) : Inv c n s' := by
+  obtain ⟨h1, h2, h3, h4, h5, h6, h7, h8, h9, h10, h11, h12, h13⟩ := h
+  simp only [step] at st
+  split at st
+  · split at st
+    · simp only [Option.some.injEq, Prod.mk.injEq] at st
+      obtain ⟨rfl, -⟩ := st
+      constructor <;> simp only [tick] <;> grind
+    · simp at st
+  · simp at st
+
+
+/-- allocating the ring of an empty queue -/
+theorem allocT_TInv {c : Cfg} {x : TState} (h : TInv c x) (hq : x.q.size = 0) (hc : 0 < c.size)
+    (g : Array (BitVec 64)) (hg : g.size = c.size) : TInv c { x with q := g } := by
+  have he : x.head = x.tail := by
+    rcases h.qsz with a | ⟨_, b⟩
+    · omega
+    · exact b
+  have hpl := h.pend_length
+  have hem := h.empty he
+  have hp : x.pend = [] := List.eq_nil_of_length_eq_zero (by omega)
+  refine ⟨h.tail_le, h.occ, h.ninv_le, h.done, ?_, h.codec, Or.inl hg⟩
+  show ringWords c g x.tail (x.head - x.tail) = encode x.lastOut x.pend
+  rw [he, Nat.sub_self, hp]; rfl
+
+theorem inv_reg {c : Cfg} (hc : c.WF) {n : Nat} {s s' : State} {out : Out} (t : Nat) (g : Array (BitVec 64))
+    (h : Inv c n s) (st : step c n s (.reg t g) = some (s', out)) : Inv c n s' := by
+  have h4 := hc.ge4
+  have hh := h
+  obtain ⟨h1, h2, h3, h4, h5, h6, h7, h8, h9, h10, h11, h12, h13⟩ := h
+  simp only [step] at st
+  split at st
+  · simp at st
+  rename_i hl
+  have hl' : s.lock = none := by simpa using hl
+  split at st
+  · simp at st
+  rename_i hg
+  split at st
+  · simp only [Option.some.injEq, Prod.mk.injEq] at st; obtain ⟨rfl, -⟩ := st; exact hh
+  split at st
+  · simp only [Option.some.injEq, Prod.mk.injEq] at st; obtain ⟨rfl, -⟩ := st; exact hh
+  rename_i hq
+  simp only [Option.some.injEq, Prod.mk.injEq] at st
+  obtain ⟨rfl, -⟩ := st
+  have hq0 : (s.th t).q.size = 0 := by simpa using hq
+  have hgs : g.size = c.size := by simpa using hg
+  have hnot : t ∉ s.registry := by intro hm; have := h4 t hm; omega
+  have ht := allocT_TInv (h1 t) hq0 (by omega) g hgs
+  constructor <;> simp only [tick, upd, hl'] <;> grind
+
+
+theorem mem_enqT_queuedR {c : Cfg} {x : TState} {f p : BitVec 64} {now : Nat} {cl : Call}
+    (h : cl ∈ (enqT c x f p now).1.queuedR) : cl.time = now ∨ cl ∈ x.queuedR := by
+  simp only [enqT, List.mem_cons] at h
+  rcases h with rfl | h
+  · exact Or.inl rfl
+  · exact Or.inr h
+
+theorem inv_enq {c : Cfg} (hc : c.WF) {n : Nat} {s s' : State} {out : Out} (t : Nat) (f p : BitVec 64)
+    (h : Inv c n s) (st : step c n s (.enq t f p) = some (s', out)) : Inv c n s' := by
+  have hge := hc.ge4
+  have hh := h
+  obtain ⟨h1, h2, h3, h4, h5, h6, h7, h8, h9, h10, h11, h12, h13⟩ := h
+  simp only [step] at st
+  split at st
+  · simp at st
+  rename_i hbusy
+  split at st
+  · simp at st
+  rename_i hq
+  split at st
+  · split at st <;> (simp only [Option.some.injEq, Prod.mk.injEq] at st; obtain ⟨rfl, -⟩ := st; exact hh)
+  rename_i hnf
+  simp only [Option.some.injEq, Prod.mk.injEq] at st
+  obtain ⟨rfl, -⟩ := st
+  have hnf' : needFlush c (s.th t) = false := by simpa using hnf
+  have hqs : (s.th t).q.size = c.size := by
+    rcases (h1 t).qsz with a | ⟨b, _⟩
+    · exact a
+    · exact absurd b hq
+  have ht := enqT_TInv hc (h1 t) hqs hnf' f p s.clock
+  have hsn : ∀ snap gs, gs ≤ s.clock → Snap c (s.th t) snap gs → Snap c (enqT c (s.th t) f p s.clock).1 snap gs :=
+    fun snap gs hle hs => enqT_Snap (h1 t) hs f p s.clock hle
+  have hqq : (enqT c (s.th t) f p s.clock).1.q.size = c.size := by simp [writeWords_size, hqs]
+  have hmem := @mem_enqT_queuedR c (s.th t) f p s.clock
+  have hlh : (enqT c (s.th t) f p s.clock).1.lastHead = (s.th t).lastHead := rfl
+  have hhd : (s.th t).head ≤ (enqT c (s.th t) f p s.clock).1.head := by simp
+  constructor
+  · intro t'; simp only [tick, upd]; grind
+  · intro t' cl; simp only [tick, upd]; grind
+  · exact h3
+  · intro t'; simp only [tick, upd]; grind
+  · intro t'; simp only [tick, upd]; grind
+  · intro t'; simp only [tick, upd]; grind
+  · simp only [tick]; grind
+  · simp only [tick]; grind
+  · simp only [tick]; grind
+  · simp only [tick]; grind
+  · intro who gs d hl t' ht'
+    simp only [tick, upd] at *
+    have := h11 who gs d hl t' ht'
+    have := h7 _ hl
+    grind
+  · intro t' snap gs d hl
+    simp only [tick, upd] at *
+    have := h12 t' snap gs d hl
+    have := h7 _ hl
+    have : t' ≠ t := by intro e; subst e; simp [hl, Holder.thread] at hbusy
+    grind
+  · intro t' snap gs d hl
+    simp only [tick, upd] at *
+    have := h13 t' snap gs d hl
+    have := h7 _ hl
+    have : t' ≠ t := by intro e; subst e; simp [hl, Holder.thread] at hbusy
+    grind
+
+
+theorem inv_flushSnapshot {c : Cfg} {n : Nat} {s s' : State} {out : Out} (t : Nat)
+    (h : Inv c n s) (st : step c n s (.flushSnapshot t) = some (s', out)) : Inv c n s' := by
+  have hh := h
+  obtain ⟨h1, h2, h3, h4, h5, h6, h7, h8, h9, h10, h11, h12, h13⟩ := h
+  simp only [step] at st
+  split at st
+  · simp at st
+  rename_i hl
+  have hl' : s.lock = none := by simpa using hl
+  split at st
+  · simp only [Option.some.injEq, Prod.mk.injEq] at st
+    obtain ⟨rfl, -⟩ := st
+    constructor <;> simp only [tick] <;> grind
+  simp only [Option.some.injEq, Prod.mk.injEq] at st
+  obtain ⟨rfl, -⟩ := st
+  have ht := (h1 t).snapUpd (s.th t).lastHead (s.th t).queuedR.length
+  have hs := Snap.create (h1 t) s.clock (h2 t) (s.th t).lastHead
+  constructor <;> simp only [tick, upd] <;> grind
+
+theorem inv_flushRun {c : Cfg} {n : Nat} {s s' : State} {out : Out} (t : Nat)
+    (h : Inv c n s) (st : step c n s (.flushRun t) = some (s', out)) : Inv c n s' := by
+  have hh := h
+  obtain ⟨h1, h2, h3, h4, h5, h6, h7, h8, h9, h10, h11, h12, h13⟩ := h
+  simp only [step] at st
+  split at st
+  · rename_i t' snap gs hl
+    split at st
+    · simp at st
+    rename_i hne
+    have : t' = t := by simpa using hne
+    subst this
+    split at st
+    · simp only [Option.some.injEq, Prod.mk.injEq] at st; obtain ⟨rfl, -⟩ := st; exact hh
+    rename_i x' cs hr
+    simp only [Option.some.injEq, Prod.mk.injEq] at st
+    obtain ⟨rfl, -⟩ := st
+    obtain ⟨hs, hsn⟩ := h12 t' snap gs true hl
+    have ht := runQ_TInv (h1 t') hs s.clock hr
+    obtain ⟨f1, f2, f3, f4, f5, f6, f7, f8, f9, f10⟩ := runQ_frame (h1 t') hs s.clock hr
+    constructor <;> simp only [tick, upd] <;> grind
+  · simp at st
+
+
+theorem unregT_fields (c : Cfg) (x : TState) :
+    (unregT c x).q.size = 0 ∧ (c.fixed = true → (unregT c x).lastHead = 0) ∧ (unregT c x).queuedR = x.queuedR
+    ∧ (unregT c x).head = x.head ∧ (unregT c x).tail = x.tail := by
+  refine ⟨rfl, ?_, rfl, rfl, rfl⟩
+  intro h; simp [unregT, h]
+
+theorem inv_unregBegin {c : Cfg} {n : Nat} {s s' : State} {out : Out} (t : Nat)
+    (h : Inv c n s) (st : step c n s (.unregBegin t) = some (s', out)) : Inv c n s' := by
+  have hh := h
+  obtain ⟨h1, h2, h3, h4, h5, h6, h7, h8, h9, h10, h11, h12, h13⟩ := h
+  simp only [step] at st
+  split at st
+  · simp at st
+  rename_i hl
+  have hl' : s.lock = none := by simpa using hl
+  split at st
+  · simp at st
+  rename_i hin
+  have hin' : t ∈ s.registry := by simpa using hin
+  have hme : ∀ t', t' ∈ s.registry.erase t ↔ (t' ≠ t ∧ t' ∈ s.registry) := fun t' => h3.mem_erase_iff
+  have hnd : (s.registry.erase t).Nodup := h3.erase t
+  split at st
+  · rename_i he
+    simp only [Option.some.injEq, Prod.mk.injEq] at st
+    obtain ⟨rfl, -⟩ := st
+    have ht := unregT_TInv (h1 t) he
+    obtain ⟨u1, u2, u3, u4, u5⟩ := unregT_fields c (s.th t)
+    constructor <;> simp only [tick, upd, hl'] <;> grind
+  simp only [Option.some.injEq, Prod.mk.injEq] at st
+  obtain ⟨rfl, -⟩ := st
+  have ht := (h1 t).snapUpd (s.th t).lastHead (s.th t).queuedR.length
+  have hs := Snap.create (h1 t) s.clock (h2 t) (s.th t).lastHead
+  constructor
+  case unreg_q =>
+    intro t' hnin hno
+    by_cases e : t' = t
+    · subst e; exact absurd rfl (hno _ _ _)
+    · simp only [tick, upd] at *; grind
+  all_goals (simp only [tick, upd]; grind)
+
+theorem inv_unregEnd {c : Cfg} {n : Nat} {s s' : State} {out : Out} (t : Nat)
+    (h : Inv c n s) (st : step c n s (.unregEnd t) = some (s', out)) : Inv c n s' := by
+  have hh := h
+  obtain ⟨h1, h2, h3, h4, h5, h6, h7, h8, h9, h10, h11, h12, h13⟩ := h
+  simp only [step] at st
+  split at st
+  · rename_i t' snap gs hl
+    split at st
+    · simp at st
+    rename_i hne
+    have : t' = t := by simpa using hne
+    subst this
+    split at st
+    · simp only [Option.some.injEq, Prod.mk.injEq] at st; obtain ⟨rfl, -⟩ := st; exact hh
+    rename_i x' cs hr
+    simp only [Option.some.injEq, Prod.mk.injEq] at st
+    obtain ⟨rfl, -⟩ := st
+    obtain ⟨hs, hsn⟩ := h13 t' snap gs true hl
+    have ht := runQ_TInv (h1 t') hs s.clock hr
+    obtain ⟨f1, f2, f3, f4, f5, f6, f7, f8, f9, f10⟩ := runQ_frame (h1 t') hs s.clock hr
+    have ht2 := unregT_TInv ht (by omega)
+    obtain ⟨u1, u2, u3, u4, u5⟩ := unregT_fields c x'
+    have := h6 t' snap gs true hl
+    constructor <;> simp only [tick, upd] <;> grind
+  · simp at st
+
+
+theorem runT_eq {c : Cfg} {x : TState} (h : TInv c x) {snap gs : Nat} (hs : Snap c x snap gs) (now : Nat) :
+    runQ c x snap now = some (runT c x snap now) := by
+  have := runQ_spec h hs now
+  simp only [runT, this]
+
+theorem inv_barrierSnapshot {c : Cfg} {n : Nat} {s s' : State} {out : Out} (who : Option Nat)
+    (h : Inv c n s) (st : step c n s (.barrierSnapshot who) = some (s', out)) : Inv c n s' := by
+  have hh := h
+  obtain ⟨h1, h2, h3, h4, h5, h6, h7, h8, h9, h10, h11, h12, h13⟩ := h
+  simp only [step] at st
+  split at st
+  · simp only [Option.some.injEq, Prod.mk.injEq] at st
+    obtain ⟨rfl, -⟩ := st
+    constructor <;> simp only [tick] <;> grind
+  split at st
+  · simp at st
+  rename_i hl
+  have hl' : s.lock = none := by simpa using hl
+  have ht : ∀ t, TInv c { s.th t with lastHead := (s.th t).head, snapQ := (s.th t).queuedR.length } :=
+    fun t => (h1 t).snapUpd _ _
+  have hs : ∀ t, Snap c { s.th t with lastHead := (s.th t).head, snapQ := (s.th t).queuedR.length } (s.th t).head s.clock :=
+    fun t => Snap.create (h1 t) s.clock (h2 t) _
+  split at st
+  · simp only [Option.some.injEq, Prod.mk.injEq] at st
+    obtain ⟨rfl, -⟩ := st
+    constructor <;> simp only [tick, snapTh] <;> grind
+  · simp only [Option.some.injEq, Prod.mk.injEq] at st
+    obtain ⟨rfl, -⟩ := st
+    constructor <;> simp only [tick, snapTh, hl'] <;> grind
+
+theorem inv_barrierRun {c : Cfg} {n : Nat} {s s' : State} {out : Out}
+    (h : Inv c n s) (st : step c n s .barrierRun = some (s', out)) : Inv c n s' := by
+  have hh := h
+  obtain ⟨h1, h2, h3, h4, h5, h6, h7, h8, h9, h10, h11, h12, h13⟩ := h
+  simp only [step] at st
+  split at st
+  · rename_i who gs hl
+    split at st
+    · simp only [Option.some.injEq, Prod.mk.injEq] at st
+      obtain ⟨rfl, -⟩ := st
+      have hsn := h11 who gs true hl
+      have hrun : ∀ t, t ∈ s.registry →
+          TInv c (runT c (s.th t) (s.th t).lastHead s.clock).1 ∧
+          (runT c (s.th t) (s.th t).lastHead s.clock).1.q = (s.th t).q ∧
+          (runT c (s.th t) (s.th t).lastHead s.clock).1.queuedR = (s.th t).queuedR := by
+        intro t ht
+        have e := runT_eq (h1 t) (hsn t ht) s.clock
+        have a := runQ_TInv (h1 t) (hsn t ht) s.clock e
+        obtain ⟨f1, f2, f3, f4, f5, f6, f7, f8, f9, f10⟩ := runQ_frame (h1 t) (hsn t ht) s.clock e
+        exact ⟨a, f3, f4⟩
+      constructor <;> simp only [tick] <;> grind
+    · simp only [Option.some.injEq, Prod.mk.injEq] at st; obtain ⟨rfl, -⟩ := st; exact hh
+  · simp at st
+
+/-- the invariant is inductive -/
+theorem inv_step {c : Cfg} (hc : c.WF) {n : Nat} {s s' : State} {op : Op} {out : Out} (h : Inv c n s)
+    (st : step c n s op = some (s', out)) : Inv c n s' := by
+  cases op with
+  | reg t g => exact inv_reg hc t g h st
+  | unregBegin t => exact inv_unregBegin t h st
+  | unregEnd t => exact inv_unregEnd t h st
+  | barrierSnapshot who => exact inv_barrierSnapshot who h st
+  | barrierRun => exact inv_barrierRun h st
+  | flushSnapshot t => exact inv_flushSnapshot t h st
+  | flushRun t => exact inv_flushRun t h st
+  | gp => exact inv_gp h st
+  | enq t f p => exact inv_enq hc t f p h st
+  | rlock i => exact inv_rlock i h st
+  | runlock i => exact inv_runlock i h st
+
+theorem inv_reach {c : Cfg} (hc : c.WF) {n : Nat} {h0 : Nat → Nat} {s : State} (h : Reach c n h0 s) :
+    Inv c n s := by
+  induction h with
+  | init => exact inv_init c n h0
+  | step _ st ih => exact inv_step hc ih st
+
 end UrcuVerif.Defer
